@@ -161,11 +161,12 @@ CHECKS = {
              "dak (not a valid Release file) raises TypeError on dump: modelled, generated, outside the property.",
         technique=T.format(how="round-trip and totality lemmas over the regenerated tables")),
     "C13": dict(
-        text="Theorems (Props/C13.v, 6, all Closed under the global context): for every well-formed relation structure (boolean "
+        text="Theorems (Props/C13.v, 7, all Closed under the global context): for every well-formed relation structure (boolean "
              "wf_rels: any number of conjuncts and alternatives, all 2^4 combinations of arch qualifier / version constraint / "
              "arch list / restriction formula) parse_relations(str(rels)) = (rels, 0 warnings), str of that is the identical "
              "string, the Spec judgement used by holds is true of the model, the __dep_RE scanner returns exactly the written "
-             "groups on every formatted atom, and str is injective on the domain.  Induction over the structure.",
+             "groups on every formatted atom, str is injective on the domain, and every formatted text has exactly one domain "
+             "structure behind it, which is what the parser returns (unique readability).  Induction over the structure.",
         design="§4 C13",
         note=COMMON_NOTE + "Modelled not verified: the hand-written scanner for __dep_RE and the separator/restriction patterns "
              "(each compared on every run with the live compiled pattern objects), str.lower as ascii_lower (profiles ASCII), "
